@@ -263,6 +263,12 @@ class FitYamlReader(YamlReaderMixin, FitDReprBase):
                 _fit_object.limit_parameter(_par, _low, _high)
 
         _fit_results = yaml_doc.pop("fit_results", None)
+        if _fit_type == "custom" and _fit_results is not None and _fit_results.get("parameter_values", None) is not None:
+            # a custom fit has no parametric model that could carry the parameter values
+            _par_vals = _fit_results["parameter_values"]
+            if isinstance(_par_vals, dict):
+                _par_vals = [_par_vals[_par_name] for _par_name in _fit_object.parameter_names]
+            _fit_object.set_all_parameter_values(_par_vals)
         _fit_object._loaded_result_dict = to_numpy_arrays(_fit_results)
         return _fit_object, yaml_doc
 
